@@ -163,6 +163,9 @@ class UAIReader(object):
         """
         domain = {}
         var_domain = self.grammar.parseString(self.network)["domain_variables"]
+        if isinstance(var_domain, str):
+            # A single variable: pyparsing returns the token itself, not a list.
+            var_domain = [var_domain]
         for var in range(0, len(var_domain)):
             domain["var_" + str(var)] = var_domain[var]
         return domain
